@@ -390,6 +390,7 @@ func runC09(seed uint64, tier, dir, replay string) error {
 	if tier == "thorough" {
 		n = 20000
 	}
+	var directEnc []map[string]interface{}
 	// (a) frames: encode -> decode -> encode, demux tag, reported size
 	for i := 0; i < n; i++ {
 		e, kind := g.ethernet()
@@ -397,7 +398,12 @@ func runC09(seed uint64, tier, dir, replay string) error {
 			e.VLANID.VID, e.VLANID.PCP = 0, uint8(1+rng.Intn(7))
 			kind = "priority-tagged" + kind[len(kind)-len(kind[indexByte(kind, '/'):]):]
 		}
-		b, err := e.MarshalBinary()
+		b, err, pan := marshalGuard(e)
+		if pan != "" {
+			directEnc = append(directEnc, map[string]interface{}{"what": fmt.Sprintf("encoding a %s frame panics: %s", kind, pan), "index": -1,
+				"case": map[string]interface{}{"kind": "frame:" + kind, "fields": canonString(e), "panic": pan}})
+			continue
+		}
 		if err != nil {
 			continue
 		}
@@ -533,6 +539,9 @@ func runC09(seed uint64, tier, dir, replay string) error {
 		}
 		addLane("igmpv3-sqrv", 6, ws)
 	}
+	if len(directEnc) > 0 {
+		o.Meta["direct_violations"] = directEnc
+	}
 	o.Meta["rule"] = "random well-formed Ethernet frames (untagged / tagged incl. the priority-tag shape VID 0, payloads IPv4 with options + ICMP/UDP/opaque, IPv6 with extension-header chains of length 0..3 in all orders each header at most once, ARP, opaque) through MarshalBinary -> UnmarshalBinary -> MarshalBinary with the payload decoder chosen and the reported size; bit lanes exhaustively for VLAN TCI, IPv4 version/IHL, DSCP/ECN, flags/fragment offset, IPv6 fragment offset/M, TCP offset/flags, IGMPv3 S/QRV, sampled for the IPv6 first word; distinct by frame kind x size bucket x payload tag / lane block"
 	o.Meta["exhaustive"] = false
 	return o.Close()
@@ -545,4 +554,15 @@ func indexByte(s string, c byte) int {
 		}
 	}
 	return 0
+}
+
+// marshalGuard encodes and reports a panic as text
+func marshalGuard(m util.Message) (b []byte, err error, pan string) {
+	defer func() {
+		if r := recover(); r != nil {
+			pan = fmt.Sprint(r)
+		}
+	}()
+	b, err = m.MarshalBinary()
+	return
 }
